@@ -50,7 +50,7 @@ pub enum Cut {
 /// u16 at offset 2 of the standard header.
 pub fn cut_at(stream: &[u8], pos: usize, storage: bool) -> Cut {
     let sl = if storage { 16 } else { 0 };
-    let rest = &stream[pos..];
+    let rest = &stream[pos.min(stream.len())..];
     if rest.len() < sl + 4 {
         return Cut::Eos(rest.len());
     }
